@@ -230,6 +230,24 @@ func (im *Impl) boot() {
 	im.LS, im.closer = ls, closer
 }
 
+// ProbeStart runs server.New on the state file at path (inside the current bubble) and closes the
+// server again: "" if it started, else the error or panic.
+func ProbeStart(c Cfg, path string) (res string) {
+	defer func() {
+		if r := recover(); r != nil {
+			res = fmt.Sprintf("panic in server.New: %v", r)
+		}
+	}()
+	_, closer, err := server.New(c.serverConfig(path))
+	if closer != nil {
+		defer closer()
+	}
+	if err != nil {
+		return err.Error()
+	}
+	return ""
+}
+
 func (im *Impl) Now() int64 { return int64(time.Since(im.start)) }
 
 var kRe = regexp.MustCompile(`K[0-9]+`)
@@ -440,6 +458,11 @@ func (im *Impl) Exec(o Op) (r Resp) {
 		im.LS.VerifManager().VerifGc(time.Duration(o.D))
 	case "restart", "restartwith":
 		im.CancelAll()
+		if len(im.pend) > len(im.done) {
+			// a blocked call ignored the cancellation (see Close)
+			time.Sleep(2 * time.Hour)
+			synctest.Wait()
+		}
 		im.closer()
 		im.closer = nil
 		synctest.Wait()
@@ -499,6 +522,15 @@ func (im *Impl) CancelAll() {
 // Close ends the history: every goroutine of the bubble must be gone afterwards.
 func (im *Impl) Close() {
 	im.CancelAll()
+	im.drain()
+	if len(im.pend) > 0 {
+		// a blocked call that ignored its cancellation: let its own wait timeout (if any) end it in
+		// virtual time before the closer runs, which would otherwise wait for it on a sync mutex (not a
+		// durable block: the bubble's clock would never advance and the run would hang in real time)
+		time.Sleep(2 * time.Hour)
+		synctest.Wait()
+		im.drain()
+	}
 	if im.closer != nil {
 		im.closer()
 		im.closer = nil
